@@ -240,27 +240,40 @@ class Interp:
         else:
             raise Unsupported(f"loop over {type(it).__name__}")
         ctx = LoopCtx(self, env, it, lo, hi, ordinal)
-        view = spec(ctx)            # callable i -> {var: value}
-        accs = list(view(lo).keys())
+        view = spec(ctx)            # callable i -> {var: value, "__lemma__": [z3 Bool ...]}
+        if isinstance(it, SList) and it.unordered:
+            # C19: iteration order of set-derived collections is unspecified -> the accumulator must be a commutative fold
+            eng.oblige(f"loop{ordinal}/order-independence: accumulator over an unordered collection is a commutative fold",
+                       bool(getattr(view, "commutative", False)), kind="order")
+        def split(d):
+            d = dict(d); lem = d.pop("__lemma__", []); return d, lem
         # 1. establishment
-        for var, want in view(lo).items():
+        v0_, lem0 = split(view(lo))
+        for var, want in v0_.items():
             self.equiv(env.get(var, NONE), want, f"loop{ordinal}/init/{var}")
+        for k, l in enumerate(lem0): eng.oblige(f"loop{ordinal}/init/lemma{k}", l, kind="inv")
         ph = eng.phase(2, f"loop{ordinal}")
         if ph == 0:
             # 2. preservation from an arbitrary iteration
             i = eng.fresh(f"i{ordinal}", I)
             eng.assume(z3.And(lo <= i, i < hi))
-            for var, val in view(i).items():
+            vi, lemi = split(view(i))
+            for l in lemi: eng.assume(l)
+            for var, val in vi.items():
                 env[var] = val
             self.assign(s.target, elem(i), env)
             self.exec_block(s.body, env)
-            for var, want in view(i + 1).items():
+            vn, lemn = split(view(i + 1))
+            for var, want in vn.items():
                 self.equiv(env.get(var, NONE), want, f"loop{ordinal}/preserve/{var}")
+            for k, l in enumerate(lemn): eng.oblige(f"loop{ordinal}/preserve/lemma{k}", l, kind="inv")
             extra = getattr(view, "after_body", None)
             if extra: extra(ctx, i, env)
             raise Abort()
         # 3. exit
-        for var, val in view(n_exit).items():
+        vx, lemx = split(view(n_exit))
+        for l in lemx: eng.assume(l)
+        for var, val in vx.items():
             env[var] = val
 
     def st_While(self, s, env):
@@ -456,6 +469,8 @@ class Interp:
 
     def compare(self, op, a, b):
         eng = self.eng
+        if isinstance(a, Opt): a = self.resolve_opt(a)
+        if isinstance(b, Opt): b = self.resolve_opt(b)
         if isinstance(op, (ast.Is, ast.IsNot)):
             r = (a is b) or (a is NONE and b is NONE)
             return r if isinstance(op, ast.Is) else not r
@@ -557,6 +572,7 @@ class Interp:
 
     # ================================================================== attribute access
     def getattr(self, o, name):
+        if isinstance(o, Opt): o = self.resolve_opt(o)
         if isinstance(o, Builtin):
             if o.name == "u": return self.units.literal(name)
             return Builtin(f"{o.name}.{name}")
@@ -600,6 +616,8 @@ class Interp:
             return BoundMethod(o, name)
         if isinstance(o, TS):
             return BoundMethod(o, name)
+        if isinstance(o, Opaque) and o.what == "timedelta" and name == "seconds":
+            return PyNum((o.payload * 60) % 86400)     # timedelta.seconds: seconds part only (days dropped), ticks are minutes
         if isinstance(o, (Arr, PintAccessor, SDict, SList, list, str, Label, Unit, Opaque, tuple, ILoc)):
             return BoundMethod(o, name)
         if isinstance(o, ClassRef):
@@ -609,6 +627,9 @@ class Interp:
         if isinstance(o, PyNum):
             raise SymRaise("AttributeError", f"number has no attribute '{name}'")
         raise Unsupported(f"getattr {type(o).__name__}.{name}")
+
+    def resolve_opt(self, o: Opt):
+        return NONE if self.eng.decide(o.is_none) else o.value
 
     def resolve(self, u: ExplU):
         if self.eng.decide(u.is_empty):
@@ -670,7 +691,14 @@ class Interp:
     def subscript(self, base, key):
         if isinstance(base, DF):
             if key == "value": return Series(base)
-            if isinstance(key, Mask): return DF(L.vfilter(base.vec, key.f), base.unit)
+            if isinstance(key, Mask):
+                fv = L.vfilter(base.vec, key.f)
+                n = self.eng.fresh("filtered_len", I); w = self.eng.fresh("filtered_at", I)
+                self.eng.assume(n >= 0)
+                self.add_universal(lambda t: z3.Implies(n == 0, z3.Not(fv.inidx(t))))
+                self.eng.assume(z3.Implies(n > 0, fv.inidx(w))); self.add_point(w)
+                fv.n = n
+                return DF(fv, base.unit)
         if isinstance(base, SDict):
             k = self.dict_key(key)
             if k not in base.d: raise SymRaise("KeyError", str(k))
@@ -719,6 +747,8 @@ class Interp:
     def binop(self, op, a, b, inplace=False):
         if isinstance(a, ExplU): a = self.resolve(a)
         if isinstance(b, ExplU): b = self.resolve(b)
+        if isinstance(a, Opt): a = self.resolve_opt(a)
+        if isinstance(b, Opt): b = self.resolve_opt(b)
         tname = type(op).__name__
         if isinstance(a, PyNum) and isinstance(b, PyNum):
             return self.num_binop(op, a, b)
@@ -729,7 +759,13 @@ class Interp:
         if isinstance(a, Expl):
             meth = {"Add": "__add__", "Sub": "__sub__", "Mult": "__mul__", "Div": "__truediv__"}.get(tname)
             if meth is None: raise Unsupported(f"operator {tname} on explainable")
-            return self.call_method(a, meth, [b], {})
+            if (a.kind, meth) in self.specs or not isinstance(b, Expl):
+                return self.call_method(a, meth, [b], {})
+            # python's protocol: type(a) does not define the operator -> reflected method of b
+            rmeth = "__r" + meth[2:]
+            if (b.kind, rmeth) in self.specs:
+                return self.call_method(b, rmeth, [a], {})
+            raise SymRaise("TypeError", f"unsupported operand types for {tname}")
         if isinstance(b, Expl):
             meth = {"Add": "__radd__", "Sub": "__rsub__", "Mult": "__rmul__", "Div": "__rtruediv__"}.get(tname)
             if meth is None: raise Unsupported(f"operator {tname} on explainable")
@@ -833,7 +869,11 @@ class Interp:
         if isinstance(a, Arr) and isinstance(b, PyNum) and t == "Mult":
             return Arr(lambda tt_: a.mag(tt_) * b.r, a.origin, a.length)
         if isinstance(a, TS) and isinstance(b, TS) and t == "Sub":
-            return ("timedelta", a.tick - b.tick)
+            return Opaque("timedelta", a.tick - b.tick)
+        if isinstance(a, list) and isinstance(b, PyNum) and t == "Mult" and len(a) == 1:
+            lst = SList(z3.If(b.z >= 0, b.z, z3.IntVal(0)), lambda i: a[0], "repeated", unordered=False)
+            lst.const_elem = a[0]
+            return lst
         if self.world is not None:
             r = self.world.lib_binop(self, t, a, b)
             if r is not None: return r
@@ -852,8 +892,24 @@ class Interp:
             self.eng.oblige(f"pre/{name}", cond, kind="pre")
 
     def lib_pre(self, what, cond):
-        """precondition of a library contract: an obligation at the call site"""
+        """precondition of a library contract: an obligation at the call site (assumed while a contract is evaluated)"""
+        if getattr(self, "phase", "body") == "spec":
+            if isinstance(cond, bool):
+                if not cond: raise Abort()
+                return
+            self.eng.assume(cond); return
         self.eng.oblige(f"libpre/{what}", cond, kind="libpre")
+
+    def add_universal(self, f):
+        """f(t) holds for every time point t: instantiate at the skolem point and at every witness point known"""
+        reg = self.eng.run.cache.setdefault("universals", ([], []))
+        for t in [TT] + reg[1]: self.eng.assume(f(t))
+        reg[0].append(f)
+
+    def add_point(self, w):
+        reg = self.eng.run.cache.setdefault("universals", ([], []))
+        for f in reg[0]: self.eng.assume(f(w))
+        reg[1].append(w)
 
     def lib_pre_same_index(self, a: Vec, b: Vec, what):
         if a.origin is b.origin: return
@@ -1053,11 +1109,8 @@ class Interp:
             m = eng.fresh(f"series_{name}")
             w = eng.fresh(f"series_{name}_at", I)
             bound = (lambda t: z3.Implies(v.inidx(t), v.val(t) <= m)) if name == "max" else (lambda t: z3.Implies(v.inidx(t), v.val(t) >= m))
-            reg = eng.run.cache.setdefault("reductions", [])
-            pts = [TT] + [w2 for (_, w2) in reg]
-            for t in pts: eng.assume(bound(t))
-            for (b2, _) in reg: eng.assume(b2(w))
-            reg.append((bound, w))
+            self.add_universal(bound)
+            self.add_point(w)
             if v.n is None: raise Unsupported("max/min of a series without length")
             self.lib_pre(f"Series.{name}() of a non-empty series", v.n > 0)
             eng.assume(z3.Implies(v.n > 0, z3.And(v.inidx(w), v.val(w) == m)))
@@ -1104,13 +1157,13 @@ class Interp:
         if name in ("math.floor", "math.ceil"):
             x = args[0]
             if not isinstance(x, PyNum): raise Unsupported(f"{name} of {type(x).__name__}")
-            return PyNum(z3.ToInt(x.r) if name == "math.floor" else -z3.ToInt(-x.r))
+            return PyNum(floor_i(x.r) if name == "math.floor" else ceil_i(x.r))
         if name == "int":
             x = args[0]
             if isinstance(x, PyNum):
                 if x.is_int: return x
                 # int() truncates toward zero
-                return PyNum(z3.If(x.r >= 0, z3.ToInt(x.r), -z3.ToInt(-x.r)))
+                return PyNum(z3.If(x.r >= 0, floor_i(x.r), ceil_i(x.r)))
             if isinstance(x, str): return PyNum(z3.IntVal(int(x)))
             raise Unsupported("int()")
         if name == "float":
@@ -1279,6 +1332,13 @@ class Interp:
     def equiv(self, got, want, name):
         """emit obligations `got == want` on the views (want may be an ExplU / spec value)"""
         eng = self.eng
+        if isinstance(want, Opt):
+            if isinstance(got, Opt): got = self.resolve_opt(got)
+            eng.oblige(f"{name}/none-ness", want.is_none == (got is NONE))
+            if got is not NONE:
+                self.equiv(got, want.value, name)
+            return
+        if isinstance(got, Opt): got = self.resolve_opt(got)
         if isinstance(want, ExplU):
             if isinstance(got, ExplU):
                 eng.oblige(f"{name}/kind", got.is_empty == want.is_empty)
